@@ -6,14 +6,20 @@
    a node that a commit neither re-inserts nor names as stale (directly or as part of a stale
    subtree) survives the commit unchanged; with pruning disabled nothing is removed; nodes written
    by a tier update carry the new version.
-   NOT proved in Coq (C18_reach_step / C18_current_tree_intact / C18_stale_dead_forever of the
-   design): that the stale parts reported by the update algorithm are disjoint from the new tree.
-   That half is established on every run by the harness oracles (walk from the current root after
-   every commit with pruning on; stale parts unreachable from this and all later roots with pruning
-   off) and by the model/implementation comparison of stale lists and store contents. *)
+   Second part (Proof/C18_Reach.v): for ONE tier tree (the entity, a partition or a substate tier
+   taken alone, node keys = version + local nibble path) and every batch / every history:
+   C18_reach_step_partial, C18_current_tree_intact_partial, C18_stale_dead_forever_partial.
+   Gap to the full statement: the lifting across tiers (nodes of a lower tier hang under the leaf of
+   the upper tier through the payload version; a leaf that is moved keeps its lower tier) and the
+   Subtree stale part of a partition Reset (pruned by a walk over the stored nodes).  That part is
+   established on every run by the harness oracles (walk from the current root through all three
+   tiers after every commit with pruning on; stale parts, subtrees expanded, unreachable from this
+   and all later roots with pruning off) and by the model/implementation comparison of stale
+   lists and store contents. *)
 From Coq Require Import List NArith Bool.
 Import ListNotations.
-Require Import RV.Model.C17_Jmt RV.Model.C18_Store RV.Proof.C18_Store.
+Require Import RV.Model.C17_Jmt RV.Model.C18_Store RV.Proof.C17_Base RV.Proof.C17_Update RV.Proof.C17_Tier
+               RV.Proof.C17_Root RV.Proof.C18_Store RV.Proof.C18_Reach.
 Open Scope N_scope.
 
 Theorem C18_prune_subtree_local : forall p0 fuel queue s s',
@@ -41,6 +47,45 @@ Theorem C18_keys_fresh_partial : forall A prefix ver (lg : log A) v p n,
   In (OpInsert v p n) (ops_of_log prefix ver lg) -> v = ver.
 Proof. exact tier_inserts_fresh. Qed.
 
+
+(* ---- one tier tree ---- *)
+(* reach root = keys (version, path) of all nodes the root refers to; new_keys / l_stale = what the
+   commit wrote (put_node) / reported stale (put_stale_node) *)
+Theorem C18_reach_step_partial : forall H A fuel root ver ups U h t lg,
+  (0 < fuel)%nat -> pfree U -> ~ U [] -> ups_ok A U fuel ups -> state_ok H A U fuel root ->
+  tier_put H A fuel root ver ups = Ok (h, t, lg) ->
+  (forall k, In k (reach A fuel (Some (ver, t))) ->
+     In k (new_keys A ver lg) \/ (In k (reach A fuel root) /\ ~ In k (l_stale lg))) /\
+  (forall k, In k (l_stale lg) -> In k (reach A fuel root)) /\
+  (forall v0 t0, root = Some (v0, t0) -> In (v0, []) (l_stale lg)) /\
+  (forall k, In k (new_keys A ver lg) -> fst k = ver).
+Proof. exact tier_reach_step. Qed.
+
+(* every history, store with immediate pruning: the current tree is intact and everything reported
+   stale on the way (st), and everything dead before (D), is unreachable from the current root.
+   Because the statement holds for every history h, "unreachable from every later root" follows by
+   applying it to every extension of h. *)
+Theorem C18_current_tree_intact_partial : forall H A fuel U h root v ts D,
+  (0 < fuel)%nat -> pfree U -> ~ U [] -> Forall (ups_ok A U fuel) h -> state_ok H A U fuel root ->
+  vers_le v (reach A fuel root) -> vers_le v D -> ts_pruning ts = true ->
+  (forall k, In k (reach A fuel root) -> st_get k (ts_nodes ts) <> None) ->
+  (forall k, In k D -> ~ In k (reach A fuel root)) ->
+  exists rf vf tsf st, run_tier_store H A fuel root v ts h = Ok (rf, vf, tsf, st) /\
+    (forall k, In k (reach A fuel rf) -> st_get k (ts_nodes tsf) <> None) /\
+    (forall k, In k D \/ In k st -> ~ In k (reach A fuel rf)) /\
+    vers_le vf (reach A fuel rf) /\ vers_le vf st.
+Proof. exact tier_history_pruned. Qed.
+
+Theorem C18_stale_dead_forever_partial : forall H A fuel root ver ups U h t lg (D : list skey) v0,
+  (0 < fuel)%nat -> pfree U -> ~ U [] -> ups_ok A U fuel ups -> state_ok H A U fuel root ->
+  tier_put H A fuel root ver ups = Ok (h, t, lg) ->
+  vers_le v0 (reach A fuel root) -> vers_le v0 D -> v0 < ver ->
+  (forall k, In k D -> ~ In k (reach A fuel root)) ->
+  vers_le ver (reach A fuel (Some (ver, t))) /\
+  vers_le v0 (l_stale lg) /\
+  forall k, In k D \/ In k (l_stale lg) -> ~ In k (reach A fuel (Some (ver, t))).
+Proof. exact tier_dead_step. Qed.
+
 (* non-vacuity: pruning follows the stored child entries: the two-node subtree goes, the unrelated
    third node stays; pruning the leaf only keeps the other two *)
 Example C18_nonvacuous :
@@ -51,5 +96,7 @@ Example C18_nonvacuous :
               map fst (ts_nodes t'') = [(1, []); (1, [5; 15])].
 Proof. cbv zeta. eexists. split; [vm_compute; reflexivity|]. split; [reflexivity|]. eexists. split; vm_compute; reflexivity. Qed.
 
+Print Assumptions C18_reach_step_partial.
+Print Assumptions C18_current_tree_intact_partial.
 Print Assumptions C18_untouched_nodes_survive.
 Print Assumptions C18_no_pruning_keeps_everything.
